@@ -168,6 +168,10 @@ func edgeDominates(d, s, b *ssa.BasicBlock) bool {
 // dominatingFacts returns the branch conditions that hold whenever control is
 // in block b (from If terminators of dominators whose taken edge dominates b).
 func dominatingFacts(b *ssa.BasicBlock) []EdgeFact {
+	return dominatingFactsD(b, 0)
+}
+
+func dominatingFactsD(b *ssa.BasicBlock, depth int) []EdgeFact {
 	var out []EdgeFact
 	for d := b.Idom(); d != nil; d = d.Idom() {
 		ifi, ok := lastInstr(d).(*ssa.If)
@@ -176,14 +180,103 @@ func dominatingFacts(b *ssa.BasicBlock) []EdgeFact {
 		}
 		t, f := d.Succs[0], d.Succs[1]
 		td, fd := edgeDominates(d, t, b), edgeDominates(d, f, b)
+		var fact *EdgeFact
 		if td && !fd {
-			out = append(out, EdgeFact{ifi.Cond, true, d})
+			fact = &EdgeFact{ifi.Cond, true, d}
 		} else if fd && !td {
-			out = append(out, EdgeFact{ifi.Cond, false, d})
+			fact = &EdgeFact{ifi.Cond, false, d}
+		}
+		if fact == nil {
+			continue
+		}
+		out = append(out, *fact)
+		// flag threading: the condition is a phi of boolean constants defined in d
+		// (a helper's "ok" result after inlining, a flag variable): the taken edge tells
+		// which predecessor control came from, and that predecessor's facts hold too.
+		if depth < 4 {
+			if src := phiBoolSource(fact.Cond, fact.Val, d); src != nil {
+				if sif, ok := lastInstr(src).(*ssa.If); ok && len(src.Succs) == 2 && src.Succs[0] != src.Succs[1] {
+					out = append(out, EdgeFact{sif.Cond, src.Succs[0] == d, src})
+				}
+				out = append(out, dominatingFactsD(src, depth+1)...)
+			}
 		}
 	}
 	// facts within b itself do not exist (terminator is last)
 	return out
+}
+
+// onEveryPath reports whether on every path from the entry to block b some
+// branch fact satisfying pred has been established (and, being a fact about
+// SSA values, still holds): either a dominating fact, or every incoming edge
+// carries such a fact or comes from a block for which this holds.  Back edges
+// are treated conservatively (false).
+func onEveryPath(b *ssa.BasicBlock, pred func(EdgeFact) bool) bool {
+	memo := map[*ssa.BasicBlock]int{}
+	var rec func(b *ssa.BasicBlock) bool
+	rec = func(b *ssa.BasicBlock) bool {
+		switch memo[b] {
+		case 1, 3:
+			return false
+		case 2:
+			return true
+		}
+		memo[b] = 1
+		res := false
+		for _, f := range dominatingFacts(b) {
+			if pred(f) {
+				res = true
+			}
+		}
+		if !res && len(b.Preds) > 0 {
+			res = true
+			for _, p := range b.Preds {
+				edge := false
+				if ifi, ok := lastInstr(p).(*ssa.If); ok && len(p.Succs) == 2 && p.Succs[0] != p.Succs[1] {
+					edge = pred(EdgeFact{ifi.Cond, p.Succs[0] == b, p})
+				}
+				if !edge && !rec(p) {
+					res = false
+					break
+				}
+			}
+		}
+		if res {
+			memo[b] = 2
+		} else {
+			memo[b] = 3
+		}
+		return res
+	}
+	return rec(b)
+}
+
+// phiBoolSource: cond is a phi in block d whose edges are boolean constants,
+// exactly one of which equals val; returns the predecessor that supplies it.
+func phiBoolSource(cond ssa.Value, val bool, d *ssa.BasicBlock) *ssa.BasicBlock {
+	if u, ok := cond.(*ssa.UnOp); ok && u.Op == token.NOT {
+		cond, val = u.X, !val
+	}
+	phi, ok := cond.(*ssa.Phi)
+	if !ok || phi.Block() != d {
+		return nil
+	}
+	var src *ssa.BasicBlock
+	n := 0
+	for i, e := range phi.Edges {
+		bv, isC := constBool(e)
+		if !isC {
+			return nil
+		}
+		if bv == val {
+			n++
+			src = d.Preds[i]
+		}
+	}
+	if n != 1 {
+		return nil
+	}
+	return src
 }
 
 func lastInstr(b *ssa.BasicBlock) ssa.Instruction {
@@ -432,4 +525,15 @@ func valueName(v ssa.Value) string {
 // isInitFn: the package initialiser or a declared init function (init#N).
 func isInitFn(fn *ssa.Function) bool {
 	return fn.Name() == "init" || (len(fn.Name()) > 5 && fn.Name()[:5] == "init#")
+}
+
+
+// eqFact normalises a branch fact on an (in)equality test: it returns the two
+// operands and whether the fact says they are equal.
+func eqFact(f EdgeFact) (x, y ssa.Value, equal bool, ok bool) {
+	bo, isB := f.Cond.(*ssa.BinOp)
+	if !isB || (bo.Op != token.EQL && bo.Op != token.NEQ) {
+		return nil, nil, false, false
+	}
+	return bo.X, bo.Y, (bo.Op == token.EQL) == f.Val, true
 }
